@@ -473,6 +473,10 @@ func (tic *TermInCommittee) HandlePrepare(pm *interfaces.PrepareMessage) {
 		tic.logger.Info("LHMSG RECEIVED PREPARE IGNORE - signed header has message type %s", header.MessageType())
 		return
 	}
+	if !proofsvalidator.IsInMembers(tic.committeeMembers, sender.MemberId()) {
+		tic.logger.Info("LHMSG RECEIVED PREPARE IGNORE - sender %s is not a committee member", Str(sender.MemberId()))
+		return
+	}
 	if header.View() < tic.State.View() {
 		tic.logger.Debug("LHMSG RECEIVED PREPARE IGNORE - prepare view %v is less than current term's view %v", header.View(), tic.State.View())
 		return
@@ -559,6 +563,10 @@ func (tic *TermInCommittee) HandleCommit(cm *interfaces.CommitMessage) {
 	}
 	if header.MessageType() != protocol.LEAN_HELIX_COMMIT {
 		tic.logger.Info("LHMSG RECEIVED COMMIT IGNORE - signed header has message type %s", header.MessageType())
+		return
+	}
+	if !proofsvalidator.IsInMembers(tic.committeeMembers, sender.MemberId()) {
+		tic.logger.Info("LHMSG RECEIVED COMMIT IGNORE - sender %s is not a committee member", Str(sender.MemberId()))
 		return
 	}
 	tic.logger.Debug("LHMSG RECEIVED COMMIT STORE")
@@ -679,6 +687,10 @@ func (tic *TermInCommittee) isViewChangeValid(expectedLeaderFromNewView primitiv
 
 	if header.MessageType() != protocol.LEAN_HELIX_VIEW_CHANGE {
 		return errors.Errorf("signed header has message type %s", header.MessageType())
+	}
+
+	if !proofsvalidator.IsInMembers(tic.committeeMembers, sender.MemberId()) {
+		return errors.Errorf("sender %s is not a committee member", Str(sender.MemberId()))
 	}
 
 	if !proofsvalidator.ValidatePreparedProof(tic.State.Height(), vcmView, preparedProof, tic.keyManager, tic.committeeMembers, func(view primitives.View) primitives.MemberId { return tic.calcLeaderMemberId(view) }) {
